@@ -770,6 +770,13 @@ Lemma old_order_refuted :
     get_c s h = Some (CDone OPlaceholder) /\ h_recvend s = false /\ dropped s = false.
 Proof. exists tr_old, 2. destruct old_order_placeholder as (A & B & C & _). cbv zeta. auto. Qed.
 
+(* the reordering recognised as VNoWait (report, then drop the front receiver without awaiting close_tx.closed()) *)
+Definition tr_nowait : list label := [LNewCall 1; LSendFault; LSReport; LSCloseFront; LNewCall 2; LReadErr 2].
+Lemma no_wait_refuted :
+  exists tr h, let s := run VNoWait init tr in
+    get_c s h = Some (CDone OPlaceholder) /\ h_recvend s = false /\ dropped s = false /\ reason s = None.
+Proof. exists tr_nowait, 2. vm_compute. repeat split. Qed.
+
 Lemma recv_end_refuted : exists tr h, get_c (run VNow init tr) h = Some (CDone OPlaceholder).
 Proof. exists tr_recvend, 1. exact recv_end_placeholder. Qed.
 
